@@ -57,7 +57,7 @@ PROPS["C15"] = dict(num=15, labs=["doc"], rule=DOC_RULE, nontrivial="at least on
     trusted_base=DOC_TRUSTED, assumptions=["the accumulator's mutex makes each append atomic (C14)"])
 PROPS["C16"] = dict(num=16, labs=["doc"], rule=DOC_RULE, nontrivial="at least one query in the request", trivial_classes=[0, 32, 64, 96],
     signatures={"16.1": "reachable <> (address present)", "16.2": "hop-count min/avg/max inconsistent or outside run lengths", "16.3": "e2e sent/received/loss/min/avg/max/jitter inconsistent",
-                "16.4": "identifiers not fresh / not pairwise distinct / wrong length", "16.5": "JSON does not decode back and re-encode to the same document", "16.6": "JSON keys differ from the published contract"},
+                "16.4": "identifiers not fresh / not pairwise distinct / wrong length", "16.5": "JSON does not decode back and re-encode to the same document", "16.6": "JSON keys differ from the published contract", "16.7": "the finished document does not serialise to JSON (e.g. a NaN statistic)"},
     trusted_base=DOC_TRUSTED, assumptions=["uuid.New returns a value not returned before (oracle)"])
 PROPS["C17"] = dict(num=17, labs=["doc"], rule=DOC_RULE, nontrivial="at least one run in the request", trivial_classes=[0, 4, 8, 12, 32, 36, 40, 44, 64, 68, 72, 76, 96, 100, 104, 108],
     signatures={"17.1": "a private address (or data derived from it) is still in the output", "17.2": "hop count/order/TTL changed, or a public hop was altered"},
@@ -72,7 +72,7 @@ POL_RULE = ("Policy lab under synctest: (3) cache.GetWithExpiration operation se
 PROPS["C18"] = dict(num=18, labs=["doc", "pol"], rule=DOC_RULE + " " + POL_RULE,
     nontrivial="a request with at least one run (doc lab) / any policy-lab case", trivial_classes=[0, 4, 8, 12, 32, 36, 40, 44, 64, 68, 72, 76, 96, 100, 104, 108],
     signatures={"18": "names attached to a hop/destination differ from the resolver's answer for that address", "18.2": "cache served a value no earlier successful callback produced, cached a failure, or mis-reported the callback",
-                "18.3": "provider iteration: a provider after the winner was queried / one before it was skipped / the winner's script does not succeed", "18.4": "reverse-DNS fan-out lost or invented an answer"},
+                "18.3": "provider iteration: a provider after the winner was queried / one before it was skipped / the winner's script does not succeed", "18.4": "reverse-DNS fan-out lost or invented an answer", "18.5": "a cached lookup was re-queried although a stored success for the same key was still within its lifetime (for DNS names: within the lookup's own timeout)"},
     trusted_base=DOC_TRUSTED + ["go-cache Get/Set and cenkalti/backoff Retry are modelled (validated by the correspondence); the process-wide cache is re-created without its real-clock janitor inside the lab"],
     assumptions=["backoff randomisation is switched off in the lab (RandomizationFactor 0) so that retry instants are deterministic"])
 PROPS["C08"] = dict(num=8, labs=["eng", "pol"], rule=ENG_RULE + " One case in five cancels the caller's context at an arbitrary virtual instant. " + POL_RULE,
@@ -112,7 +112,7 @@ PAR_TRUSTED = ["real sockets are used only for LocalAddrForHost / reserveLocalPo
 PROPS["C19"] = dict(num=19, labs=["par", "drv", "eng"], rule=PAR_RULE + " " + DRV_RULE, nontrivial="any case", trivial_classes=[],
     signatures={"19.9": "HTTP query: a numeric port / max-ttl value was replaced by another value instead of being handed on (honoured or rejected)", "19.1": "TTL byte of an emitted probe differs from the TTL asked of the driver", "19.2": "a request with TTL bounds outside 1..255 (or min > max) was executed", "19.3": "probes on the wire do not cover exactly the requested TTL range",
                 "19.4": "probes went to another address", "19.5": "probes went to another port / a port outside 1..65535 was used", "19.6": "probes used another protocol", "19.7": "a valid target literal was rejected or parsed to another address/port",
-                "19.8": "a port outside 1..65535 was accepted", "19.9": "the process crashed", "9": "a valid scripted run returned an error", "10": "engine panicked", "3.1": "out-of-range reply produced a path",
+                "19.8": "a port outside 1..65535 was accepted", "19.10": "a request with an unknown protocol or TCP method was executed instead of rejected", "19.9": "the process crashed", "9": "a valid scripted run returned an error", "10": "engine panicked", "3.1": "out-of-range reply produced a path",
                 "6": "emission order / pacing violated"},
     trusted_base=PAR_TRUSTED + DRV_TRUSTED, assumptions=[])
 PROPS["C20"] = dict(num=20, labs=["par"], rule=PAR_RULE, nontrivial="fallback-selector and real-run cases (class % 8 in {4, 5})", trivial_classes=[],
